@@ -13,7 +13,10 @@ CLAUSES = {
     "C10.fixed": 60000,      # all loci fixed (integer counts) => usl == lsl == common GEBV
     "C10.lost": 60000,       # integer count 0 stays 0; reported frequency exactly 0/1 stays exactly 0/1
 }
-HOOKS_REQUIRED = ["matings with a cross table whose dtype cannot hold parent index * nvrnt",
+HOOKS_REQUIRED = ["breeding-value route: gebv_numpy", "breeding-value route: gegv_numpy", "breeding-value route: predict_numpy(X = 0)",
+                  "breeding-value route: gebv(phased).unscale()", "breeding-value route: gebv(ndarray).unscale()",
+                  "breeding-value route: predict(contrast, phased).unscale()",
+                  "matings with a cross table whose dtype cannot hold parent index * nvrnt",
                   "generations with more than 4096 taxa",
                   "histories on founders never grouped along the variant axis (interleaved chromosomes)",
                   "matings whose named parents are a proper subset of the matrix mated from", "mate calls", "select_taxa calls", "concat_taxa calls", "usl/lsl calls",
